@@ -212,6 +212,50 @@ def gen_table(rng, n, big):
     return cases
 
 
+def gen_table_wrap(rng, n):
+    """AutoProbing tables that double while a long run of wrapped-around entries sits at the start of the array: more entries than
+    any fixed-size side buffer would hold, the first of them (and the entry they wrapped around) belonging to the upper half of the
+    doubled table and the later ones to the lower half.  Every key is looked up again through FindOrInsert right after the growth,
+    before later insertions can close a gap."""
+    cases = []
+    for _ in range(n):
+        init = rng.range(1, 8)
+        S = 1 << rng.range(6, 9)
+        thr = min(S - 1, int(S * 0.9))
+        ops, keys = [], []
+        used = set()
+
+        def ins(k):
+            ops.append("f:%s:%s" % (hx(k), hx(rng.below(1 << 16))))
+            keys.append(k)
+
+        def middle():
+            while True:
+                k = rng.range(1, 60) * S * 4 + rng.range(S // 4, S // 2)
+                if k not in used:
+                    used.add(k)
+                    return k
+        for _i in range(S // 2):
+            ins(middle())
+        nup = rng.range(10, 26)
+        nlow = rng.range(2, 12)
+        wrap = [(2 * j + 1) * S + S - 1 - (j % rng.range(1, 3)) for j in range(nup)] + [(2 * (j + 50)) * S + S - 1 for j in range(nlow)]
+        if rng.chance(1, 3):
+            rng.shuffle(wrap)
+        for k in wrap:
+            ins(k)
+        for _i in range(max(0, thr - S // 2 - len(wrap)) + rng.below(2)):      # just enough to cross the growth threshold of S buckets
+            ins(middle())
+        again = list(wrap)
+        rng.shuffle(again)
+        for k in again:
+            ops.append("f:%s:%s" % (hx(k), hx(rng.below(1 << 16))))
+        for k in keys[: 20]:
+            ops.append("%s:%s" % (rng.choice("qm"), hx(k)))
+        cases.append("AP %s %s %s" % (hx(init), hx(auto_buckets(init)), " ".join(ops)))
+    return cases
+
+
 def f32(x):
     import struct
     return struct.unpack("f", struct.pack("f", x))[0]
@@ -443,7 +487,7 @@ def run(ctx):
     ctx.count("corpus_cases", len(cases))
     rng = ctx.rng
     cases += gen_bitpack(rng, ctx.pick(1500, 40000)) + gen_scalar(rng, ctx.pick(600, 10000)) + \
-        gen_table(rng, ctx.pick(700, 12000), big) + gen_search(rng, ctx.pick(900, 20000), big) + gen_array(rng, ctx.pick(250, 4000), big) + gen_middle(rng, ctx.pick(250, 3000), big)
+        gen_table(rng, ctx.pick(700, 12000), big) + gen_table_wrap(rng, ctx.pick(40, 600)) + gen_search(rng, ctx.pick(900, 20000), big) + gen_array(rng, ctx.pick(250, 4000), big) + gen_middle(rng, ctx.pick(250, 3000), big)
     impl = vlib.compile_driver("c20_driver", os.path.join(vlib.ROOT, "harness", "drivers", "c20_driver.cc"), libs=("kenlm", "kenlm_util"))
     iout = vlib.run_lines(impl, cases)
     # step 5: specification oracle on the implementation
